@@ -765,8 +765,9 @@ def run(rep, tier):
         sr.discharge(rep, label, paths, timeout=T, replay=rp, expect_sat=ctrl)
     # ---- XH
     env = {} if q else {"XH_THOROUGH": "1"}
-    specs = [{"fn": "h_bonds", "timeout": 900 if q else 3000, "split": 4 * mk + g, "env": env} for mk in range(len(MARKS)) for g in range(len(GRAPHS))]
-    specs += [{"fn": "h_atoms", "timeout": 900 if q else 3000, "split": e, "env": env} for e in range(len(ELEMS))]
+    # quick tier: no mark and one mark of each kind (begin / end / bold), elements C (implicit), N, Fe, Og; the thorough tier takes every mark and element
+    specs = [{"fn": "h_bonds", "timeout": 900 if q else 3000, "split": 4 * mk + g, "env": env} for mk in ((0, 1, 4, 5) if q else range(len(MARKS))) for g in range(len(GRAPHS))]
+    specs += [{"fn": "h_atoms", "timeout": 900 if q else 3000, "split": e, "env": env} for e in ((0, 2, 5, 7) if q else range(len(ELEMS)))]
     specs += [{"fn": "h_lookup", "timeout": 900 if q else 3000, "split": sp, "env": env} for sp in range(9)]
     xh.run_obligations(rep, "harness.C13", specs)
 
